@@ -136,6 +136,24 @@ def exact_lists(sym, ver, level, spare, maxsegs=3, limit=60):
     return out
 
 
+def tail_corpus(r, quick=True):
+    """the end of the bit stream, deterministically: for every Micro QR symbol (and the two smallest QR versions and three rMQR
+    versions) segment lists that leave exactly 0..12 bits of the data capacity, so that the terminator, the byte alignment,
+    the pad codewords and the 4-bit final codeword of M1/M3 are met in every relative position;
+    returns [(sym, ver, level, mask, segs, label)]"""
+    out = []
+    cfgs = [('mq', v, l) for (v, l) in configs('mq')] + [('qr', v, l) for v in (1, 2) for l in (0, 1, 2, 3)] + [('rm', v, l) for v in (0, 10, 16) for l in (0, 1)]
+    for (sym, ver, level) in cfgs:
+        ms = masks(sym)
+        for spare in range(0, 13):
+            lists = exact_lists(sym, ver, level, spare, 2, 2 if quick else 6)
+            for li, lst in enumerate(lists):
+                segs = [(ref(sym).MODE[k], payload(r, k, n)) for k, n in lst]
+                mask = 0 if sym == 'rm' else ms[(spare + li + ver) % len(ms)]
+                out.append((sym, ver, level, mask, segs, 'tail-spare-%d' % spare))
+    return out
+
+
 def rounding_adversarial(sym, quick=False, seed=1):
     """payloads of exactly (and one below) the largest length that fits the largest symbol of a level as ONE byte-mode
     segment, built from periods on which the mode selection's cost model (sixths of a bit, rounded up per segment) gains
